@@ -3,7 +3,7 @@ import concurrent.futures as cf
 import os, subprocess, time
 import vlib
 
-CFG = """CONSTANTS N = %d Me = %d MaxVer = %d
+CFG = """CONSTANTS N = %d Me = %d MaxVer = %d WithNarrow = TRUE
 SPECIFICATION Spec
 INVARIANTS TypeOK CurrentSigned StagingSigsSound UnsignedOnlyAdopted
 PROPERTIES PhaseMoves OwnSigOnlyWhenSigning
@@ -31,7 +31,7 @@ def one(binary, scratch, n, me, maxver, denv, seed):
     return r, d
 
 
-TCFG = """CONSTANTS N = 2 Me = 0 MaxVer = %d LogFile = "%s"
+TCFG = """CONSTANTS N = 2 Me = 0 MaxVer = %d WithNarrow = FALSE LogFile = "%s"
 SPECIFICATION TSpec
 INVARIANTS CurrentSigned StagingSigsSound
 CONSTRAINT Mark
